@@ -22,6 +22,8 @@ ASSUMPTIONS = [
 EPS = 2.0**-52
 SOFT_BUDGET = 20000
 
+ANCHORS = [('pervaporation/pervaporation.py', 'permeate_pressure * permeate_composition.first', 'permeate-pressure branch of the driving force'), ('pervaporation/pervaporation.py', 'permeate_temperature, self.mixture, permeate_composition', 'permeate-temperature branch of the driving force'), ('pervaporation/pervaporation.py', 'permeate_nrtl_partial_pressures = (0, 0)', 'vacuum branch of the driving force')]
+
 
 def shards(tier, seed):
     n = {"quick": 1300, "thorough": 60000}[tier]
@@ -105,8 +107,59 @@ def run_shard(spec, rep):
             continue
         try:
             _judge(rep, case, fc, j, taps, n2, k, Permeance)
+            _other_model_same_object(rep, case, fc)
         except Exception as e:
             rep.harness_error(f"C02 judge: {e!r}", e)
+
+
+def _other_model_same_object(rep, case, fc):
+    """the same object, the same state, the OTHER activity model: the law must hold with that model's thermodynamics
+    (a result remembered from the first call would satisfy the first model's law instead).  Uses the tapped y* when the
+    inner evaluations were observed and y*-free forms otherwise."""
+    import copy
+
+    fc2 = copy.copy(fc)
+    fc2.model = "UNIQUAC" if fc.model == "NRTL" else "NRTL"
+    st, j, taps = call(fc2)
+    if st != "ok" or not all(math.isfinite(v) for v in j):
+        rep.count("other_model_call_" + st)
+        return
+    name = "same object, other activity model: the law holds with THAT model"
+    c2 = dict(case, second_model=fc2.model)
+    p1, p2 = fc.p1.value, fc.p2.value
+    _, pf, _ = ref_fluxes(fc2, 0.5, p1, p2)
+    if not all(math.isfinite(float(v)) for v in pf):
+        return
+    if fc.mode in ("V", "P0"):
+        rep.require(name, j[0] == float(p1 * pf[0]) and j[1] == float(p2 * pf[1]), c2, {"fluxes": j, "ref": [float(p1 * pf[0]), float(p2 * pf[1])]})
+        return
+    if fc.pp is not None:
+        s_ = float(pf[0]) + float(pf[1])
+        lhs = j[0] / p1 + j[1] / p2
+        if not rep.check(name, abs(lhs - (s_ - fc.pp)), 64 * EPS * max(s_, fc.pp), c2, {"identity": "J1/P1+J2/P2 = sum(p_feed) - p", "lhs": lhs, "rhs": s_ - fc.pp}):
+            return
+    if taps:
+        ystar = taps[-1][0].p
+        ok = False
+        detail = {}
+        for basis in (("weight", "molar") if fc.pp is not None else ("weight",)):
+            ref, pf2, perm = ref_fluxes(fc2, ystar, p1, p2, basis)
+            res = [abs(j[i] - float(ref[i])) for i in (0, 1)]
+            tol = [64 * EPS * (p1, p2)[i] * max(abs(float(pf2[i])), abs(float(perm[i]))) for i in (0, 1)]
+            detail[basis] = {"ref": [float(ref[0]), float(ref[1])], "residual": res}
+            ok = ok or (res[0] <= tol[0] and res[1] <= tol[1])
+        rep.require(name, ok, c2, dict(detail, fluxes=j, ystar=ystar))
+    else:
+        rep.count("other_model_inner_evaluations_not_observed")
+    yj = j[0] / (j[0] + j[1])
+    if 0 <= yj <= 1:
+        L = lipschitz(fc2, yj, p1, p2, fc.precision)
+        if L < 0.9:
+            try:
+                gy = g_map(fc2, yj, p1, p2)
+            except Exception:
+                return
+            rep.check(name, abs(gy - yj), fc.precision, c2, {"y_J": yj, "g(y_J) with the second model": gy, "L": L})
 
 
 def _judge(rep, case, fc, j, taps, n2, k, Permeance):
